@@ -143,6 +143,22 @@ structure Tidy (s : State) : Prop where
   dataDisjoint : ∀ n, AL.contains s.font.data.entries n = true → AL.contains s.font.data.sched n = false
   disk : DiskOk s.disk
 
+/-- the entry of a layer in the report of a font that is in step except for memory-only glyphs:
+nothing but those glyphs, listed as deleted (finding F8.1) -/
+def memOnlyEntry (s : State) (ln : String) : Option (String × LayerRep) :=
+  match AL.get? s.font.layers ln with
+  | some l =>
+    if (layerDeleted s.disk ln l).isEmpty then none
+    else some (ln, { info := false, modified := [], added := [], deleted := layerDeleted s.disk ln l })
+  | none => none
+
+/-- glyph-level editing between two saves: reading, editing, deleting, creating and renaming glyphs,
+reading and editing top-level objects and layer info -/
+def EditOp : Op → Prop
+  | .touch _ | .pset _ _ | .reloadpart _ | .lset _ _ => True
+  | .gget _ _ | .gset _ _ _ | .gdel _ _ | .gnew _ _ | .grename _ _ _ => True
+  | _ => False
+
 /-- operations that change no byte on disk that the font has not written itself, and create /
 delete / reorder nothing in memory: lazy reads, edits of values, deletions of glyphs, images and
 data, touch-only external edits, tests, reloads of top-level objects, in-place saves (which write
